@@ -747,6 +747,13 @@ impl Check for C11 {
         if !keys.is_empty() {
             m.events.push((key_tick, HostEv::PushKeys(keys.clone())));
         }
+        // type-ahead that the host withdraws again before the program gets to its trap (the prelude
+        // takes 9 instructions): it must not be seen by GETC/IN, which wait for the real key
+        if key_tick >= 11 && r.chance(1, 3) {
+            m.events.push((0, HostEv::PushKeys(vec![1 + r.below(255) as u8, 1 + r.below(255) as u8])));
+            m.events.push((1 + r.below(5) as u32, HostEv::ClearKeys));
+            m.events.sort_by_key(|e| e.0);
+        }
         let nirq = if r.chance(1, 2) { 0 } else { 1 + r.below(2) as usize };
         let window = 20 + key_tick + out_len * 20;
         add_irq_sources(r, &mut m, nirq, window, true);
@@ -1019,6 +1026,11 @@ impl Check for C12 {
         s.flags.debug_frames = r.chance(1, 3);
         s.ops.clear();
         s.max_ticks = 8000;
+        // a recording device that owns the port of the MCR: internal registers take precedence, the OS
+        // halt still stops the machine
+        if r.chance(1, 8) {
+            s.devs.push(DevSpec::Script(ScriptSpec { ports: vec![0xFFFE], vect: 0x9F, prio: 0, raises: vec![], externals: vec![], read_refuse: vec![], write_refuse: vec![], read_base: r.u16(), mcr_clear: vec![], wrap: r.below(3) as u8 }));
+        }
         // a quarter of the runs drive the real-trap machine with step_in instead of run()
         match r.below(8) {
             0 | 1 => s.profile = "C12-step".into(),
